@@ -47,13 +47,15 @@ pub struct MultiWorld {
     t0_ns: u64,
     restarts: usize,
     last_sig: String,
+    /// sha of the forwarding script registered with SCRIPT LOAD at reset (substituted for `@SHA`)
+    sha: Vec<u8>,
 }
 
 impl MultiWorld {
     pub fn new(spec: MultiSpec) -> MultiWorld {
         vtime::enable();
         let n = spec.nconns;
-        MultiWorld { spec, srv: None, conns: (0..n).map(|_| None).collect(), aux: None, model: ConnModel::new(n), t0_ms: 0, t0_ns: 0, restarts: 0, last_sig: String::new() }
+        MultiWorld { spec, srv: None, conns: (0..n).map(|_| None).collect(), aux: None, model: ConnModel::new(n), t0_ms: 0, t0_ns: 0, restarts: 0, last_sig: String::new(), sha: Vec::new() }
     }
 
     fn ensure_server(&mut self) -> Result<(), String> {
@@ -223,7 +225,7 @@ impl World for MultiWorld {
         // drop the previous history's connections
         for c in self.conns.iter_mut() {
             if let Some(cl) = c.as_mut() {
-                cl.close();
+                cl.discard();
             }
             *c = None;
         }
@@ -236,6 +238,12 @@ impl World for MultiWorld {
                 return Err(format!("FLUSHALL -> {}", resp::show(&r)));
             }
             let _ = srv.call(aux, &["SELECT", "0"]);
+            if self.spec.acts.iter().any(|a| matches!(a, MAct::Cmd(_, args) if args.iter().any(|x| x == b"@SHA"))) {
+                match srv.call(aux, &["SCRIPT", "LOAD", crate::model::conn::FORWARD_SCRIPT]) {
+                    Ok(R::Bulk(sha)) => self.sha = sha,
+                    other => return Err(format!("SCRIPT LOAD -> {:?}", other)),
+                }
+            }
             srv.h.storage.verif_reset_watch_trackers();
             // leftovers of the previous history are a finding of that history; here they would poison this one
             let (ch, pt, cs) = srv.h.pubsub.verif_snapshot();
@@ -298,7 +306,8 @@ impl World for MultiWorld {
                 let db = st.db;
                 let sig_args = self.model.data.sig_of(db, &args);
                 self.last_sig = sig_args.clone();
-                self.conns[c].as_mut().unwrap().send(&resp::cmd(&args));
+                let wire: Vec<Bytes> = args.iter().map(|a| if a == b"@SHA" { self.sha.clone() } else { a.clone() }).collect();
+                self.conns[c].as_mut().unwrap().send(&resp::cmd(&wire));
                 let frames = match self.settle_frames() {
                     Ok(f) => f,
                     Err(e) => {
